@@ -32,7 +32,10 @@ CHECKS = {
              'transition is replayed into real InterfaceClass / Implements / '
              'Provides / Declaration objects (C and Python) and the whole '
              'isOrExtends / extends / providedBy matrix is compared.',
-        ref='DESIGN.md 3.1, 4 C02'),
+        ref='DESIGN.md 3.1, 4 C02',
+        tech_extra='; traces recorded from the real code (seeded random '
+                   'programs with re-basing from inside change notifications) '
+                   'validated by TraceSpecGraph.tla (code->spec conformance)'),
     'C03': dict(
         spec='SpecGraph.tla (MC_SpecGraph_dag, MC_SpecGraph_hist)',
         text='TLC checks SroValid / SroIsC3 / StrictIff of the modelled '
@@ -41,7 +44,10 @@ CHECKS = {
              'and after rebasing histories; each DAG is an implementation '
              'test for __sro__, __iro__, ro(strict=True), is_consistent, '
              'with CPython type.mro() guarding the spec itself.',
-        ref='DESIGN.md 3.1, 4 C03'),
+        ref='DESIGN.md 3.1, 4 C03',
+        tech_extra='; traces recorded from the real code (seeded random '
+                   'programs with re-basing from inside change notifications) '
+                   'validated by TraceSpecGraph.tla (code->spec conformance)'),
     'C04': dict(
         spec='Registry.tla (MC_Registry order configs)',
         text='TLC checks WalkIsBest (the modelled nested _lookup walk returns '
@@ -68,12 +74,16 @@ CHECKS = {
                    'drivers, the repository\'s doctests) validated by '
                    'TraceRegistry.tla (code->spec conformance)'),
     'C06': dict(
-        spec='Registry.tla (MC_Registry chain configs, push and verify)',
+        spec='Registry.tla (MC_Registry chain configs, push and verify; '
+             'MC_RegistryComp: component registries owning registries)',
         text='TLC checks RoIsFresh and WalkIsBest/CacheTransparent for chains '
              'and DAGs of three (exhaustive) and four (random) registries of '
              'both flavours with __bases__ reassigned at any level and '
-             'registrations in any member; all transitions replayed on real '
-             'AdapterRegistry / VerifyingAdapterRegistry chains.',
+             'registrations in any member, and LinkedUnlessStale / '
+             'AssignRelinks for Components whose constructors are re-run and '
+             'whose __bases__ are re-assigned; all transitions replayed on '
+             'real AdapterRegistry / VerifyingAdapterRegistry chains and '
+             'real Components objects (adapters and utilities side).',
         ref='DESIGN.md 3.6, 4 C06',
         tech_extra='; traces recorded from the real code (seeded random '
                    'drivers, the repository\'s doctests) validated by '
@@ -134,7 +144,8 @@ CHECKS = {
         tech_extra='; trace-against-trace comparison of the two '
                    'implementations on TLC-generated API programs'),
     'C11': dict(
-        spec='LookupMem.tla (MC_LookupMem, TraceLookupMem)',
+        spec='LookupMem.tla (MC_LookupMem, TraceLookupMem), '
+             'LookupWalk.tla (MC_LookupWalk)',
         text='TLC explores every call-out point of every lookup entry point x '
              'every foreign action (mutate, raise, re-enter) x thread '
              'interleavings at call-outs and checks NoUseAfterFree, '
@@ -142,7 +153,11 @@ CHECKS = {
              'schedules are injected deterministically into the real C and '
              'Python lookups with an ownership audit of the cache containers, '
              'leak audit on exceptional exits, and real-thread stress whose '
-             'call log is validated by TraceLookupMem.',
+             'call log is validated by TraceLookupMem; LookupWalk opens the '
+             'uncached walk up: one mutation between any two container '
+             'accesses, BeforeOrAfter checked on the copy-on-write mechanism '
+             '(refuted for in-place extendor lists), every initial state '
+             'injected into the real walk at every access in turn.',
         ref='DESIGN.md 3.7, 4 C11',
         tech_extra='; recorded call logs validated by TLC (code->spec)'),
     'C12': dict(
@@ -180,7 +195,10 @@ CHECKS = {
              'interleaved get(); every state/transition is replayed and all '
              'accessors (getitem/get/in/iter/names/namesAndDescriptions/'
              'tagged values/invariants) compared with the spec owner.',
-        ref='DESIGN.md 3.1, 4 C15'),
+        ref='DESIGN.md 3.1, 4 C15',
+        tech_extra='; traces recorded from the real code (seeded random '
+                   'programs with re-basing from inside change notifications) '
+                   'validated by TraceSpecGraph.tla (code->spec conformance)'),
     'C16': dict(
         spec='Components.tla (MC_Components)',
         text='TLC explores the eight register*/unregister* methods with '
